@@ -1,7 +1,9 @@
 """C17 — check configuration and MANIFEST entry."""
 CFG = {
     "count": {"quick": 16000, "thorough": 640000},
-    "lean_files": ["GeoModel/Prepared.lean", "GeoModel/GeomGraph.lean", "GeoModel/Winding.lean", "GeoModel/RelateSpec.lean",
+    "translator": True,
+    "lean_files": ["GeoModel/TRANPrelude.lean", "GeoModel/Gen/GraphGen.lean", "GeoProofs/Lemmas/TRAN2Graph.lean", "GeoModel/RelateImpl.lean",
+                   "GeoModel/RelateImplNodes.lean", "GeoModel/Prepared.lean", "GeoModel/GeomGraph.lean", "GeoModel/Winding.lean", "GeoModel/RelateSpec.lean",
                    "GeoModel/Valid.lean", "GeoModel/Ops/C17.lean"],
     "rule": "three cases in four (C17.hist): histories of 3..10 relate calls over 2..3 geometries of any type from one shared grid; each operand of "
             "each call is the plain geometry, an owned PreparedGeometry or a borrowed PreparedGeometry (created once, reused for the rest of the "
@@ -16,6 +18,10 @@ CFG = {
             "intersection lists and is_isolated), and the nodes of both must equal the model's add_self_intersection_nodes run on the recorded "
             "intersection coordinates; empty graphs are tagged triv. distinct by input text.",
     "trusted_base": [
+        "translator/rs2lean.py + rsexpr.py + jobs2.py for TopologyPosition and IntersectionMatrix::{set, set_at_least, set_at_least_if_in_both} (explicit choices: "
+        "a &mut match on self binds the named fields as mutable variables and rebuilds the value at the end of the arm; panic! arms = None / state unchanged, "
+        "as in the model; self.0[a][b] = the cell accessors IM.get / IM.set; < on Dimensions = comparison of declaration ranks; Label: the two-element array "
+        "geometry_topologies = the fields a, b through Label.get / Label.set, index 0 = a, any other index = b). Not regenerated: set_locations (logging macro)",
         "the matrix computation after graph construction and self-noding is shared by both paths in the code and is represented by the DE-9IM specification (C01)",
         "rstar envelope queries return every stored segment whose envelope intersects the query (assumption on the external crate)",
         "the intersection coordinates recorded on the edges during self-noding are taken from the implementation (line intersection is C11's subject); "
@@ -44,6 +50,10 @@ MANIFEST = {
             "envelopes (candidates_complete). Correspondence: random histories mixing plain / owned-prepared / borrowed-prepared operands with reuse, every answer "
             "must equal the plain answer and the specification's matrix; and graph dumps of the real code (fresh, fresh self-noded, prepared clone) for both "
             "operand positions against buildGraph and against each other.",
-    "note": "Trusted: Lean kernel + audited axioms; harness (sampling) and the dump hook; rstar completeness; intersection coordinates of self-noding come from the "
+    "note": "Translator tie (TRAN2, topologyPosition_eq_source): the TopologyPosition constructors, get, is_empty, is_any_empty, is_area, is_line, flip, "
+            "set_all_positions(_if_empty), set_position, set_on_position and IntersectionMatrix::{set, set_at_least, set_at_least_if_in_both} of the model equal the "
+            "terms regenerated from topology_position.rs / intersection_matrix.rs on this run (GeoModel/Gen/GraphGen.lean); label_eq_source: the same for the 17 "
+            "methods of Label (label.rs). "
+            "Trusted: Lean kernel + audited axioms; harness (sampling) and the dump hook; rstar completeness; intersection coordinates of self-noding come from the "
             "implementation; the Rust-level deep copy is observed, not proved.",
 }
